@@ -45,11 +45,15 @@ man = {
               "baseline_off_cmd": BASELINE_OFF, "source_commits": [], "add_only": True},
     "engines": [{"name": "coq-proof+correspondence", "path": "coq/ + harness/",
                  "serves_properties": [c["property_id"] for c in checks],
-                 "kind_free_text": "Coq 8.16 theorems about hand-written executable Gallina models (coq/theories), "
+                 "kind_free_text": "Coq 8.16 theorems (298 files, all closed proofs; whole-file theorems composed from the "
+                 "byte level up to a short specification) about executable Gallina models (coq/theories), "
                  "tied to /repo by translators (harness/gen) and by a correspondence check that evaluates the "
                  "models inside Coq (vm_compute) on the same inputs as the implementation (harness/cXX.py)"}],
     "checks": checks,
-    "notes": "See DESIGN.md. Fix commits and findings: KNOWN_FINDINGS.txt.",
+    "notes": "See DESIGN.md (section 13 is the build report; 13.6 the extension session). The integer / control logic of "
+             "most of /repo is re-derived from the Python AST on every run (harness/gen, Gen/*.v) and proved equal to the "
+             "hand models. 23 genuine defects repaired in /repo ('fix:' commits) and 3 recorded findings: "
+             "KNOWN_FINDINGS.txt. 128 independently seeded bugs with demonstrations: seeded/ (TABLE.md).",
     "not_applicable": na,
 }
 json.dump(man, open(os.path.join(VERIF, "MANIFEST.json"), "w"), indent=1)
